@@ -46,7 +46,7 @@ MUTANTS = [
     ("compose-accepts-shared-outputs", IOC, "        return len(list_intersection(self.outputvars, other.outputvars)) == 0", "        return True", ["C06"], []),
     ("quotient-skips-additional-input-check", IOC, "if list_diff(additional_inputs, list_union(other.outputvars, self.inputvars)):", "if False:", ["C06"], []),
     ("compose-forgets-kept-outputs", IOC, "        outputvars = list_union(outputvars, vars_to_keep)\n", "", ["C06"], []),
-    ("compose-keep-check-one-sided", IOC, "conflict_vars = list_diff(vars_to_keep, list_union(self.outputvars, other.outputvars))", "conflict_vars = list_diff(vars_to_keep, list_union(self.outputvars, other.outputvars + other.inputvars))", ["C06"], []),
+    ("compose-keep-check-dropped", IOC, "        if conflict_vars:\n            raise IncompatibleArgsError(\"Asked to keep variables", "        if False:\n            raise IncompatibleArgsError(\"Asked to keep variables", ["C06"], []),
     ("quotient-output-rule", IOC, "list_diff(self.outputvars, other.outputvars), list_diff(other.inputvars, self.inputvars)\n        )\n        inputvars", "list_diff(self.outputvars, other.outputvars), list_diff(other.inputvars, self.outputvars)\n        )\n        inputvars", ["C06"], []),
     ("feedback-check-dropped", IOC, "if cycle_present and (other_drives_const_inputs or self_drives_const_inputs):", "if cycle_present and (other_drives_const_inputs and self_drives_const_inputs):", ["C06"], []),
     ("ctor-skips-guarantee-vars-check", IOC, "        if list_diff(guarantees.vars, list_union(input_vars, output_vars)):\n            raise IncompatibleArgsError(", "        if False:\n            raise IncompatibleArgsError(", ["C06"], []),
@@ -66,6 +66,11 @@ MUTANTS = [
     ("fold-abs-without-constant-check", SER, "                elif _are_numbers_approximatively_equal(tp.constant, tn.constant):", "                elif True:", ["C10"], []),
     ("machine-dict-int-constant", PIC, '"constant": float(term.constant),\n                "coefficients": {str(k): float(v) for k, v in term.variables.items()},\n            }\n            for term in self.g.terms', '"constant": float(term.constant) + 0.5,\n                "coefficients": {str(k): float(v) for k, v in term.variables.items()},\n            }\n            for term in self.g.terms', ["C10"], []),
     ("file-swaps-representation", FIO, 'if machine_representation:\n                entry["type"] = "PolyhedralIoContract_machine"\n                entry["data"] = c.to_machine_dict()', 'if machine_representation:\n                entry["type"] = "PolyhedralIoContract_machine"\n                entry["data"] = c.copy().to_machine_dict()', [], ["C10"]),
+    ("transform-mutates-self", POLY, "        term_list = list(self.terms)\n        new_terms = self.copy()", "        term_list = list(self.terms)\n        new_terms = self", ["C13"], []),
+    ("union-shares-terms", IOC, "return type(self)(list_union(self.copy().terms, other.copy().terms))", "return type(self)(list_union(self.terms, other.terms))", ["C13"], []),
+    ("term-rename-in-place", POLY, "        new_term = self.copy()\n        if source_var in self.vars and source_var != target_var:", "        new_term = self\n        if source_var in self.vars and source_var != target_var:", ["C13"], []),
+    ("default-tactics-order-consumed", PIC, "        if tactics_order is None:\n            tactics_order = TACTICS_ORDER\n\n        if vars_to_keep is None:", "        if tactics_order is None:\n            tactics_order = TACTICS_ORDER\n            TACTICS_ORDER.reverse()\n\n        if vars_to_keep is None:", ["C13"], []),
+    ("get-terms-with-vars-aliases", IOC, "                terms.append(t.copy())\n        return type(self)(terms)", "                terms.append(t)\n        return type(self)(terms)", ["C13"], []),
     ("compose-wrong-context", IOC, "other.a | other.g, assumptions_forbidden_vars, simplify=True, tactics_order=tactics_order", "other.a, assumptions_forbidden_vars, simplify=True, tactics_order=tactics_order", [], []),
     ("tactic2-polarity", POLY, "polarity = 1\n        if refine:\n            polarity = -1\n        objective = [polarity * term.get_coefficient(var) for var in variables]", "polarity = -1\n        if refine:\n            polarity = 1\n        objective = [polarity * term.get_coefficient(var) for var in variables]", ["C04"], []),
     ("reduce-drops-near-redundant", POLY, '(res["status"] == 0 and -res["fun"] <= b_temp[i])', '(res["status"] == 0 and -res["fun"] <= b_temp[i] + 0.5)', ["C07"], []),
